@@ -422,6 +422,12 @@ def trace_tag(state):
     return {"tag": state.tag, "pos": state.pos}
 
 
+def trace_odd_keys(state):
+    _cb("odd", state)
+    # keys that differ only in characters a file name cannot carry
+    return {"pos/x": state.pos * 1.0, "posx": state.pos * 2.0, "pos x": state.pos * 3.0, "pos:x": state.pos * 4.0}
+
+
 TRACE_SETS = {
     "none": None,
     "empty": [],
@@ -430,6 +436,7 @@ TRACE_SETS = {
     "scalar": [trace_scalar],
     "tag": [trace_tag],
     "three": [trace_pos, trace_a, trace_b],
+    "odd_keys": [trace_odd_keys],
 }
 
 
@@ -954,7 +961,7 @@ def random_scenario(rng, *, profile="mixed", run_seed=None):
         scn["system"] = {"kind": "euclid", "dim": dim, "target": zoo.quartic_from_seed(rng, dim)}
         scn["second_transition"] = rng.random() < 0.5
         scn["init"] = rng.choice(["dict", "state"])
-        scn["trace"] = rng.choice(["none", "empty", "pos", "two_overlap", "scalar", "tag", "three"])
+        scn["trace"] = rng.choice(["none", "empty", "pos", "two_overlap", "scalar", "tag", "three", "odd_keys"])
         scn["adapters"] = rng.choice([None, [], ["rwscale"]])
         if rng.random() < 0.3:
             scn["monitor_stats"] = {"rw": ["accepted"]}
@@ -981,7 +988,7 @@ def random_scenario(rng, *, profile="mixed", run_seed=None):
         if rng.random() < 0.2:
             scn["sampler_kwargs"]["mom_resample_coeff"] = rng.choice([0.3, 0.7, 1.0])
         scn["init"] = rng.choice(["array", "state", "state_mom"])
-        scn["trace"] = rng.choice(["default", "none", "empty", "pos", "two_overlap", "scalar", "three"] + (["tag"] if scn["init"] != "array" else []))
+        scn["trace"] = rng.choice(["default", "none", "empty", "pos", "two_overlap", "scalar", "three", "odd_keys"] + (["tag"] if scn["init"] != "array" else []))
         metric_ok = spec["kind"] in ("euclid", "gauss", "con", "gcon")
         choices = ["default", None, [], ["dual"], [{"type": "dual", "reducer": rng.choice(["arith", "geom", "min"])}]]
         if metric_ok:
